@@ -17,7 +17,7 @@ enum Kind : int { K_LOAD = 0, K_STORE, K_XCHG, K_CAS, K_FADD, K_FSUB, K_FAND, K_
 struct Event {
     int tid, kind, order, ok;
     const void* addr;
-    uint64_t a, b;          // load: a=value read; store: a=value written; xchg/fetch_*: a=old b=new; cas: a=expected b=desired(if ok) or observed
+    uint64_t a, b;          // load: a=value read; store: a=value written b=value overwritten; xchg/fetch_*: a=old b=new; cas: a=expected b=desired(if ok) or observed
     const char* tag;        // K_NOTE only
 };
 
